@@ -1,6 +1,7 @@
 package main
 
 import (
+	"regexp"
 	"context"
 	"encoding/json"
 	"errors"
@@ -331,7 +332,7 @@ func newCenvWith(h map[string]string, mgr *circuit.Manager) *cenv {
 		for _, k := range []string{"to", "mc", "fbmc"} {
 			if v := getI(h, k, 0); v != 0 {
 				applyCfg(&cfg, map[string]string{k: h[k]})
-			} else {
+			} else if h["dflt"] != "1" { // dflt=1: the three are LEFT UNSET for good — the documented defaults must be what runs
 				ctorAll = false
 			}
 		}
@@ -389,6 +390,9 @@ func newCenvWith(h map[string]string, mgr *circuit.Manager) *cenv {
 	} else {
 		// fo / fc stay as the layered construction merged them
 		hh := map[string]string{"dis": "0", "to": "0", "mc": "10", "fbd": "0", "fbmc": "10"}
+		if h["dflt"] == "1" {
+			hh["to"] = "1000000000" // the documented defaults: 1 s, 10 concurrent runs, 10 concurrent fallbacks
+		}
 		for k, v := range h {
 			if k != "fo" && k != "fc" && k != "ii" && k != "iei" {
 				hh[k] = v
@@ -851,6 +855,14 @@ func (circuitSuite) Gen(r *rand.Rand, i int) Case {
 	direct := pt == "" && r.Intn(6) == 0
 	if direct {
 		hdr += " direct=1"
+		if r.Intn(2) == 0 {
+			// timeout and both limits left unset at construction and never re-applied: the documented defaults run
+			for _, k := range []string{"to", "mc", "fbmc"} {
+				hdr = regexp.MustCompile(" "+k+"=-?[0-9]+").ReplaceAllString(hdr, "")
+			}
+			hdr += " dflt=1"
+			to = 1_000_000_000
+		}
 	}
 	c := Case{Header: hdr}
 	tag := func(t string) { c.Tags = append(c.Tags, t) }
